@@ -31,7 +31,8 @@ RULE = (
     "load from master-file text (dns.zone.from_text with the B-tree zone factory; origin passed or taken from a $ORIGIN "
     "line; relativize on/off; names spelled relative, absolute or @; every permutation of the non-apex records, "
     "duplicated rdataset lines), big zones (250..510 names written in one transaction with the glue before its cut, so "
-    "that update_glue_flag walks full B-tree leaves; cut removed and re-added later), compared at the commit and on bounds queries with the model and the definition; all "
+    "that update_glue_flag walks full B-tree leaves; cut removed and re-added later), big delegation indexes (252..380 cuts committed, one more added in an aborted / "
+    "committed transaction with the previous version held, every retained version re-queried), compared at the commit and on bounds queries with the model and the definition; all "
     "permutations of small record sets as load order, split over two transactions at every point; bounds queried "
     "with every name of <= 3 labels over a 3-letter alphabet plus in-zone and out-of-zone extras; a "
     "class dimension (CH zones), the public predicates Node.is_origin/is_delegation/is_glue/is_origin_or_glue, bounds given a str, "
@@ -587,8 +588,26 @@ def evaluate(case):
             now = "raises " + repr(e)
         if now != snap0:
             fails.append(("C20/versions/committed-version-changed-later",
-                          f"a committed version changed after later transactions: was {snap0}, is {now}"))
+                          f"a committed version changed after later transactions: was {snap0[:300]}…, is {now[:300]}…"))
             break
+    # every retained version (a reader may still hold it) must go on answering by the definition of *its* content
+    for vi, (hv, snap0) in enumerate(held):
+        hsp = Spec(apex, {k: t for k, _, t in snap_of(hv)[0]}) if case.get("hq") else None
+        for qh in case.get("hq", ()):
+            key = validate_key(cfg, tuple(dec_labels(qh)))
+            want = hsp.bounds(key) if key is not None else None
+            if want is None or apex not in hsp.content or check_state(hv, "held", None)[0] and vi == len(held) - 1:
+                continue
+            try:
+                b = hv.bounds(dns.name.Name(dec_labels(qh)))
+                got = (low(b.left.labels), None if b.right is None else low(b.right.labels), low(b.closest_encloser.labels),
+                       bool(b.is_equal), bool(b.is_delegation))
+            except BaseException as e:
+                got = "raises " + type(e).__name__
+            if got != (want["left"], want["right"], want["ce"], want["eq"], want["deleg"]):
+                fails.append(("C20/versions/retained-version-bounds",
+                              f"version {vi} of {len(held)} retained: bounds({qh}) = {got!r}, the definition on its content says {want!r}"))
+                break
     # a query "holds" when the implementation's answer is the definition's answer
     bi = [t for t in out if t.startswith("B")]
     bs = [t for t in spec_out if t.startswith("B")]
@@ -722,6 +741,8 @@ def flush_guards(ctx: Ctx):
 def minimise(case, sig, budget=120):
     """greedy removal of items while the same signature still fails (keeps replays and the corpus small)"""
     items = list(case["items"])
+    if case.get("quiet"):
+        budget = 25         # big zones: each evaluation is expensive, and the size is the point
     tries = 0
     i = len(items) - 1
     while i >= 0 and tries < budget:
@@ -1077,6 +1098,35 @@ def gen_big(rng, total):
     return {"kind": "hist", "rel": rel, "origin": hexl(origin), "items": items, "quiet": True}
 
 
+def gen_bigindex(rng, ncuts, commit):
+    """a delegation index of `ncuts` entries committed in one version (the default B-tree node holds 253), then one
+    more cut added in a transaction that is aborted or committed while the previous version is still held, then a
+    name added beneath a cut and a cut removed; bounds at and below the first / middle / last cut after every step
+    and, at the end, again on every retained version.  Observed at commits and queries only."""
+    origin = [b"example", b""]
+    rel = rng.chance(1, 2)
+    suf = [] if rel else origin
+    cuts = [[b"d%03d" % i] for i in range(ncuts)]
+    marks_ = [cuts[0], cuts[ncuts // 2], cuts[126 if ncuts > 126 else 0], cuts[-1]]
+    items = ["T11", f"p:{enc(suf)}:6:0", f"p:{enc(suf)}:2:0"]
+    items += [f"p:{enc(n + suf)}:2:0" for n in rng.shuffle(cuts)]
+    items += [f"p:{enc([b'g'] + n + suf)}:1:0" for n in marks_]
+    qs = []
+    for n in marks_:
+        qs += [n, [b"g"] + n, [b"zz"] + n, [n[0] + b"0"]]
+    qs += [[b"a"], [b"zzz"], []]
+    qitems = ["Q:" + enc(q + suf) for q in qs]
+    items += qitems
+    newcut = rng.choice([[b"a0"], [b"d126x"], [b"d%03dx" % (ncuts // 2)], [b"zz"]])
+    items += [f"T0{1 if commit else 0}", f"p:{enc(newcut + suf)}:2:0", f"p:{enc([b'g'] + newcut + suf)}:1:0"]
+    items += qitems
+    items += ["T01", f"p:{enc([b'h'] + cuts[-1] + suf)}:1:0", f"p:{enc([b'h'] + cuts[ncuts // 2] + suf)}:16:0",
+              f"dr:{enc(cuts[0] + suf)}:2:0"]
+    items += qitems
+    return {"kind": "hist", "rel": rel, "origin": hexl(origin), "items": items, "quiet": True,
+            "hq": [enc(q + suf) for q in qs]}
+
+
 def run_case(ctx, c, tag):
     ctx.case((tag, c["rel"], tuple(c["origin"]), tuple(c["items"]), str(c.get("load")), c.get("cls")), sample=c)
     if c.get("cls"):
@@ -1104,6 +1154,9 @@ def generate(ctx: Ctx, scale: int, rng):
                   list(range(245, 262)) + list(range(372, 390)) + [506, 507, 508, 509]):
         for _ in range(2 if scale == 1 else 4):
             run_case(ctx, gen_big(rng, total), "big-zone")
+    for ncuts in ([252, 253, 254, 380] if scale == 1 else [126, 127, 252, 253, 254, 255, 379, 380, 381, 507]):
+        for commit in (False, True):
+            run_case(ctx, gen_bigindex(rng, ncuts, commit), "big-index." + ("commit" if commit else "abort"))
     for _ in range(n(8)):
         for c in gen_loads(rng):
             run_case(ctx, c, "load-text." + ("$ORIGIN" if c["load"]["origin_from_text"] else "origin")
